@@ -109,6 +109,15 @@ class Registry:
         sorts.named[name] = u
         return u
 
+    def enum(self, path: str, clsname: str):
+        from .extract import enum_members
+
+        members, values = enum_members(path, clsname)
+        e = sorts.TEnum(clsname, members, values)
+        self.enums[clsname] = e
+        sorts.named["enum:" + clsname] = e
+        return e
+
     def record(self, name, fields: dict[str, str]):
         r = sorts.TRecord(name, {k: sorts.parse_ty(v) for k, v in fields.items()})
         sorts.named[name] = r
